@@ -225,6 +225,8 @@ def _bump(val):
     if isinstance(val, str): return val + "x"
     if isinstance(val, list): return val + val[:1] if val else [0]
     if isinstance(val, dict):
+        if val.get("t") == "num" and "n" in val and "d" in val:      # exact rational of ZnExpr
+            val["n"] = val["n"] + val["d"]; return val
         for f in ("v", "p", "s"):
             if f in val:
                 val[f] = _bump(val[f]); return val
@@ -255,12 +257,12 @@ def _corrupt_vector(v):
         if not v["ok"] or v["soft"] or not v["toks"]: return False
         v["toks"][-1]["b"] += 1; return True
     if k == "num":
-        v["c"] = "int" if v["c"] != "int" else "err"; return True
+        v["c"] = "name" if v["c"] != "name" else "number"; return True
     if k == "pos":
         v["line"] += 1; return True
     if k == "str":
         if not v["ok"] or v["soft"]: return False
-        v["val"] = v["val"] + ["x"]; return True
+        v["stop"] += 1; return True
     if k == "text":
         v["len"] += 1; return True
     if k == "mod":
@@ -268,18 +270,18 @@ def _corrupt_vector(v):
         return bool(v["trace"])
     if k == "iso":
         v["isolated"] = not v["isolated"]; return True
-    if k == "inv":
-        if v["out"] == "value": v["out"] = "error"; return True
-        return False
+    if k == "table":
+        v["t"] = v["t"][:-1]; return True
     if k == "dicteq":
         v["eq"] = not v["eq"]; return True
     if k == "tree":
-        v["tree"] = v["tree"][:-1]; return True
+        if not v["tree"]["c"]: return False
+        v["tree"]["c"] = v["tree"]["c"][:-1]; return True
     return False
 
 
-def corrupt_trace(path, fields):
-    """VERIF_SELFTEST=trace: bump one of `fields` in the middle line of an ndjson trace file."""
+def corrupt_trace(path, fields, to=None):
+    """VERIF_SELFTEST=trace: bump one of `fields` (or set it to `to`) in the middle line of an ndjson trace file."""
     if SELFTEST != "trace" or _selftest_done:
         return
     lines = open(path).read().splitlines()
@@ -289,7 +291,7 @@ def corrupt_trace(path, fields):
             continue
         for f in fields:
             if f in e and not isinstance(e[f], (list, dict)) and e[f] not in ("", None):
-                e[f] = _bump(e[f])
+                e[f] = _bump(e[f]) if to is None else to
                 lines[i] = json.dumps(e)
                 open(path, "w").write("\n".join(lines) + "\n")
                 _selftest_done.append((i + 1, f))
